@@ -40,7 +40,7 @@ Lemma code_text_facts : forall c, length (code_text c) = 4%nat /\ is_b64 (code_t
 Proof. intros []; repeat split; reflexivity. Qed.
 
 Theorem codec_b64 : forall verify sign authic vids c n mid vid body,
-  codec_premises verify sign vid ->
+  (auth c = true -> codec_premises verify sign vid) ->
   kind_of c <> KAck -> (authic = true -> auth c = true) ->
   n < 16777216 -> length mid = 24%nat -> is_b64 mid = true ->
   (auth c = true -> length vid = 44%nat /\ is_b64 vid = true) ->
@@ -71,8 +71,8 @@ Proof.
   assert (BH : is_b64 H = true) by (unfold H; rewrite !is_b64_app, Bc, Bn, Bm, BV; reflexivity).
   set (S := if auth c then sign vid (H ++ body) else []).
   assert (LS : length S = az c).
-  { unfold S, az. destruct (auth c); [apply Hp|reflexivity]. }
-  assert (BS : is_b64 S = true) by (unfold S; destruct (auth c); [apply Hp|reflexivity]).
+  { unfold S, az. destruct (auth c); [apply Hp; reflexivity|reflexivity]. }
+  assert (BS : is_b64 S = true) by (unfold S; destruct (auth c); [apply Hp; reflexivity|reflexivity]).
   assert (G : gram_of sign p c n (Nat.ltb 0 (vz c)) body = H ++ body ++ S).
   { unfold gram_of, cvt, neck, p. cbn [r_curt r_mid r_vid]. fold V.
     replace (code_text c ++ intToB64 n 4 ++ mid ++ V) with H by reflexivity.
@@ -115,7 +115,7 @@ Proof.
   - (* zeroth *)
     destruct (auth c) eqn:A.
     + assert (Vv : V = vid). { unfold V. destruct c; cbn in *; try discriminate; reflexivity. }
-      rewrite Vv. unfold S. destruct (Hp (H ++ body)) as (L88 & _ & Ver).
+      rewrite Vv. unfold S. destruct (Hp eq_refl (H ++ body)) as (L88 & _ & Ver).
       destruct (sign vid (H ++ body)) as [|s0 sg] eqn:Sg; [cbn in L88; discriminate|].
       rewrite Ver. cbn [bind]. destruct (Hv eq_refl) as [L44 _].
       destruct vid as [|v0 vid']; [cbn in L44; discriminate|].
@@ -127,7 +127,7 @@ Proof.
   - (* non-zeroth *)
     assert (Vn : V = []). { unfold V. destruct c; cbn in *; try discriminate; reflexivity. }
     rewrite Vn. specialize (Hvm eq_refl). destruct (auth c) eqn:A.
-    + rewrite Hvm. unfold S. destruct (Hp (H ++ body)) as (L88 & _ & Ver).
+    + rewrite Hvm. unfold S. destruct (Hp eq_refl (H ++ body)) as (L88 & _ & Ver).
       destruct (sign vid (H ++ body)) as [|s0 sg] eqn:Sg; [cbn in L88; discriminate|].
       rewrite Ver. cbn [bind]. reflexivity.
     + unfold S. cbn [bind]. reflexivity.
